@@ -29,6 +29,7 @@ EXPLANATION = (
     ' Second session: action effects are interprocedural (a call to another fsm function that is handed the provider is expanded, forks included); artim-progress: no cycle of peer-driven events through (state, ARTIM running) pairs may restart the timer, otherwise the peer postpones Evt18 indefinitely.'
     " Third session: (abort-once) the single-abort flag is tested and raised before the A-ABORT request is issued; (abort-not-after-release) the request is dominated by an unweakened `self.is_released` test taken on its false branch; (release-only-established) the reactor answers a peer's release request only under `self.is_established`."
     " Fifth round: (queue-guard) borrows C03's one-read-per-pass; (timer-run-state) borrows C04's artim-run-state; (abort-not-after-release) no abort request is issued by the library once the release has completed."
+    " Sixth round: (kill-on-idle) who may call kill_dul() / set _kill_thread: the actions returning to Sta1, stop_dul() under its Sta1 test, the requestor's negotiation after a non-accept."
 )
 
 PDU_EVENTS = {"Evt3", "Evt4", "Evt6", "Evt10", "Evt12", "Evt13", "Evt16"}
